@@ -415,11 +415,73 @@ def run(ctx):
     d5_header(ctx)
     d6_keepalive(ctx)
     d6_eof_is_real(ctx)
+    d6_read_awaited(ctx)
     d7_who_reads(ctx)
     ck.rule('C08-D8', 'content coding removal is independent of the segmentation and truncation is detectable: the decoder rules of C19 (format decision on a prefix every first piece contains, decode exactly the content bytes, flush on every framing, zlib errors become protocol errors, eof consulted)')
     from . import c19
     from .common import RemapCtx
     c19.run(RemapCtx(ctx, {'C19-D1': 'C08-D8', 'C19-D2': 'C08-D8', 'C19-D3': 'C08-D8', 'C19-D4': 'C08-D8'}))
+
+
+def d6_read_awaited(ctx, which=('wpull.protocol.http.client:Session.download', 'wpull.protocol.ftp.client:Session.download',
+                                 'wpull.protocol.ftp.client:Session.download_listing')):
+    """The failure of a body read (peer closed early, bad framing, zlib error, time-out of a read) reaches download()'s caller only
+    if the read is awaited in a way that re-raises it: `yield from <read>` directly, through asyncio.wait_for, or - when it is
+    parked in asyncio.wait, which never raises a task's exception - by asking the task for its result() / exception().  On every
+    normal path from the start of the read to the point the exchange is marked complete one of these is passed."""
+    repo, ck = ctx.repo, ctx.check
+    n = 0
+    for q in which:
+        try:
+            f = repo.func(q)
+        except Exception:
+            continue
+        cfg = ctx.cfg(f)
+        defs = U.local_defs(f.node)
+        starts = []
+        for name, ds in defs.items():
+            for v, k, st in ds:
+                vv = v
+                if isinstance(vv, ast.Call) and (dotted(vv.func) or '').split('.')[-1] in ('ensure_future', 'async', 'create_task') and vv.args:
+                    vv = vv.args[0]
+                if k == 'assign' and isinstance(vv, ast.Call) and U.attr_name(vv) in ('read_body', 'read_stream', 'read_listing_content', '_read_body'):
+                    starts.append((name, st))
+        direct = [x for x in walk_no_nested(f.node) if isinstance(x, ast.YieldFrom) and isinstance(x.value, ast.Call)
+                  and U.attr_name(x.value) in ('read_body', 'read_stream')]
+        if not starts and not direct:
+            continue
+        for name, st in starts:
+            n += 1
+            node = next((x for x in cfg.stmt_nodes() if x.stmt is st), None)
+            if node is None:
+                raise AnalysisError('%s: CFG node of the read not found' % q)
+
+            def awaited(x, name=name):
+                e = F.node_expr(x) if hasattr(F, 'node_expr') else x.stmt
+                if e is None:
+                    return False
+                for y in ast.walk(e):
+                    if isinstance(y, (ast.YieldFrom, ast.Await)):
+                        v = y.value
+                        if isinstance(v, ast.Name) and v.id == name:
+                            return True
+                        if isinstance(v, ast.Call) and (dotted(v.func) or '').endswith('wait_for') and v.args and isinstance(v.args[0], ast.Name) \
+                                and v.args[0].id == name:
+                            return True
+                    if isinstance(y, ast.Call) and isinstance(y.func, ast.Attribute) and y.func.attr in ('result', 'exception') \
+                            and isinstance(y.func.value, ast.Name) and y.func.value.id == name:
+                        return True
+                return False
+            p = cfg.find_path(node, lambda m: m is cfg.exit, edge_ok=F.normal, stop=awaited)
+            ck.expect(p is None, 'C08-D6', f.qual, 'the body read `%s` is awaited so that its failure propagates' % name,
+                      'a normal path from the start of the read to the end of %s never asks the read for its outcome (asyncio.wait does not '
+                      're-raise): a body cut short, a framing or decoding error ends as a completed exchange' % f.name, f.loc(st))
+        for x in direct:
+            n += 1
+            ck.ok('C08-D6', f.qual, 'the body read is awaited directly (yield from)')
+    if n < 1:
+        raise AnalysisError('no body read found in the download functions')
+    return n
 
 
 def d6_eof_is_real(ctx):
